@@ -133,6 +133,11 @@ def run(oc, tier, seed, model_available, escalate):
         oc.notes.append("Lean model did not build: correspondence X not run")
 
 
+def replay_finding(f):
+    import codec_util
+    return codec_util.replay_f19(f)
+
+
 def search(seed, tier, hints):
     oc = common.Outcome()
     run(oc, "quick", seed + 10101, False, True)
